@@ -39,6 +39,7 @@ type Exec struct {
 	addrBoxes         map[string]AddrV
 	noSafety          bool
 	iterStart         map[*ssa.BasicBlock]*State
+	auxTypes          map[string]types.Type
 	appendMode        int
 	memo              map[string]*memoEntry
 	groups            map[string][][]Term
